@@ -167,7 +167,7 @@ def cases(seed, tier):
     rng = random.Random(seed * 10007 + 7)
     out = []
     if tier == "quick":
-        n_tri, n_poly, n_tet, sizes = 100, 80, 50, [2, 3, 4, 5]
+        n_tri, n_poly, n_tet, sizes = 90, 72, 45, [2, 3, 4, 5]
     else:
         n_tri, n_poly, n_tet, sizes = 3600, 2900, 1900, [3, 4, 6, 8, 10, 12]
     vrows = ["list", "tuple", "nprow", "vec"]
@@ -756,8 +756,11 @@ def option_sweep(ctx, env, R, funcs, rng, judge):
         for extras in variants(fn, rng, "sweep"):
             key = fn_key(fn, extras)
             first = None
-            for persistent in (True, False):
-                for dense in (True, False):
+            combos = [(True, True), (True, False), (False, True), (False, False)]
+            if fn == "face_near_border" and "dist" in extras:
+                combos = [(True, False), (False, True)]      # the four storage combinations are covered by the default-dist variant
+            for persistent, dense in combos:
+                if True:
                     name = None if rng.random() < 0.5 else "c07_" + fn
                     ctx.cls("opt:persistent=%s,dense=%s,name=%s" % (persistent, dense, "default" if name is None else "custom"))
                     arr = call_quantity(ctx, env, fn, spec, persistent, dense, name, extras)
